@@ -15,7 +15,7 @@ Not decided: strict monotonicity over all 887 273 ticks, the per-step 2^-32 boun
 ticks, the round trip and uniqueness for every price (they quantify over values; deciding
 them means evaluating the functions)."""
 from decimal import Decimal, getcontext
-from analysis import cfg, atoms as A
+from analysis import cfg, atoms as A, poly as P
 from analysis.ir import callee_path
 from analysis.prov import Prov, prov_of, strip, leaves, subterms, show
 from analysis.match import is_param, is_call, const_val, sh, mentions
@@ -283,6 +283,47 @@ def check_inverse(run, facts, tm, fnname, price_fn, params, rule="R3", tag=""):
             if inner[0] == "bin" and inner[1].startswith(op) and _const(inner[3]) == margin:
                 return unwrap(inner[2])
         return None
+    # integer part and mantissa: msb = 127 - leading_zeros(price); the mantissa is the price shifted so that its top bit is bit 63,
+    # by truncation only (a rounded mantissa can carry into the next octave, which the integer part then does not reflect)
+    named0 = [l for l in range(fn.argc + 1, len(fn.locals)) if fn.locals[l].get("n")]
+
+    def is_price(t):
+        t = unwrap(expand(t))
+        return is_param(t, params[0]) or is_param(t, params[1])
+
+    def lz_atom(x):
+        x = strip(x)
+        if x[0] == "call" and x[1].endswith("leading_zeros") and len(x[2]) == 1 and is_price(x[2][0]):
+            return "lz"
+        if x[0] == "var":
+            return "v%d" % x[2]
+        return sh(x, 40)
+    msbs = [l for l in named0 if len(pv.var_defs(l)) == 1 and P.poly(pv.var_defs(l)[0][2], lz_atom) == {(): 127, ("lz",): -1}]
+    run.check(rule, tag + "msb", len(msbs) == 1, "the integer part of log2 is not taken from msb = 128 - leading_zeros(price) - 1", loc=fn.loc(), detail="msb := 127 - leading_zeros(price)")
+    if len(msbs) == 1:
+        m = msbs[0]
+        squared = [l for l in named0 if any(strip(t)[0] == "bin" and strip(t)[1].startswith("Mul") and unwrap(strip(t)[2]) == ("var", fn.locals[l]["n"], l) and unwrap(strip(t)[3]) == ("var", fn.locals[l]["n"], l)
+                                         for (_, _, t) in pv.var_defs(l))]
+        ok = len(squared) == 1
+        forms = []
+        if ok:
+            r = squared[0]
+            inits = [t for (_, _, t) in pv.var_defs(r) if not any(x == ("var", fn.locals[r]["n"], r) for x in subterms(t))]
+            matom = lambda x: "msb" if unwrap(x) == ("var", fn.locals[m]["n"], m) else sh(x, 30)
+            for t in inits:
+                t = unwrap(t)
+                if t[0] == "call" and t[1].rsplit("::", 1)[-1] in ("shr", "shl") and len(t[2]) == 2:
+                    # shifting a `&u128` goes through the operator trait
+                    t = ("bin", "Shr" if t[1].endswith("shr") else "Shl", t[2][0], t[2][1])
+                if t[0] == "bin" and t[1] in ("Shr", "ShrUnchecked") and is_price(t[2]) and P.poly(t[3], matom) == {("msb",): 1, (): -63}:
+                    forms.append("shr")
+                elif t[0] == "bin" and t[1] in ("Shl", "ShlUnchecked") and is_price(t[2]) and P.poly(t[3], matom) == {("msb",): -1, (): 63}:
+                    forms.append("shl")
+                else:
+                    forms.append("?" + sh(t, 60))
+            ok = sorted(forms) == ["shl", "shr"]
+        run.check(rule, tag + "mantissa", ok, "the mantissa fed to the squaring loop is %s; expected price >> (msb - 63) or price << (63 - msb), nothing added" % (forms or "not found"), loc=fn.loc(),
+                  detail="r := price >> (msb - 63) | price << (63 - msb)")
     loop = [at for at in ats if at.cond() and at.cond()[0] == "Lt" and unwrap(at.cond()[1])[0] == "var" and const_val(at.cond()[2]) == p and len(pv.var_defs(unwrap(at.cond()[1])[2])) >= 2]
     run.check(rule, tag + "precision-loop", len(loop) == 1, "the log2 loop is not bounded by `<counter> < BIT_PRECISION`", loc=fn.loc(), detail="while bit > 0 && precision < %s" % p)
     named = [l for l in range(fn.argc + 1, len(fn.locals)) if fn.locals[l].get("n")]
